@@ -103,6 +103,12 @@ Fixpoint pairwise {A} (f : A -> A -> bool) (l : list A) : bool :=
 Definition edits_wf (lines : list (list N)) (es : list fedit) : bool :=
   forallb (edit_in_doc lines) es && pairwise disjoint es.
 
+(* ---------- what the parser guarantees about postings: each on its own line of the text ---------- *)
+Fixpoint nodupb (l : list Z) : bool := match l with [] => true | x :: r => negb (mem_z x r) && nodupb r end.
+Definition plines (j : journal) : list Z := map posting_line (all_postings (j_txs j)).
+Definition post_lines_ok (j : journal) (lines : list (list N)) : bool :=
+  nodupb (plines j) && forallb (fun l => (0 <=? l) && (l <? Z.of_nat (length lines))) (plines j).
+
 (* ---------- what a journal says (ranges, raw spellings, commodity side and the blanks around an
    inline comment are layout) ---------- *)
 Definition m_com (a b : commodity) : bool := beq (c_sym a) (c_sym b).
